@@ -4,11 +4,12 @@
 /* ---- driver state ---- */
 static hx_buf drv_rem[2];          /* unconsumed remainder per direction (0 request, 1 response) */
 static int drv_susp[2];
+static int drv_closed[2];          /* the caller closed this direction: later data calls are outside the contract */
 static int drv_sticky[2];          /* 0 none, else the sticky stream state (ERROR / STOP) seen on a data call */
 static struct timeval drv_tv = { 1000000000L, 0 };
 
 static void drv_canon(hx_buf *b) {
-    hb_printf(b, "drv: susp=%d/%d sticky=%d/%d rem0=\"", drv_susp[0], drv_susp[1], drv_sticky[0], drv_sticky[1]);
+    hb_printf(b, "drv: susp=%d/%d sticky=%d/%d closed=%d/%d rem0=\"", drv_susp[0], drv_susp[1], drv_sticky[0], drv_sticky[1], drv_closed[0], drv_closed[1]);
     hb_esc(b, drv_rem[0].p, drv_rem[0].n); hb_puts(b, "\" rem1=\""); hb_esc(b, drv_rem[1].p, drv_rem[1].n); hb_puts(b, "\"\n");
 }
 
@@ -71,7 +72,7 @@ static int drv_call(htp_connp_t *c, int dir, const uint8_t *data, size_t len, in
         hx_verdict_add("C09", "data_not_all_consumed", "%s call returned DATA but consumed %zu of %zu", dn, consumed, len);
     if (rc == HTP_STREAM_DATA_OTHER && consumed >= len)
         hx_verdict_add("C09", "data_other_all_consumed", "%s call returned DATA_OTHER but consumed %zu of %zu", dn, consumed, len);
-    if (consumed > len)
+    if (consumed > len && (rc == HTP_STREAM_DATA || rc == HTP_STREAM_DATA_OTHER))   /* the count is only defined for DATA / DATA_OTHER */
         hx_verdict_add("C09", "consumed_gt_len", "%s call consumed %zu > offered %zu", dn, consumed, len);
     int64_t delta = cnt1 - cnt0;
     int reached = !(drv_sticky[dir] != 0 || (len == 0));
@@ -79,7 +80,7 @@ static int drv_call(htp_connp_t *c, int dir, const uint8_t *data, size_t len, in
         hx_verdict_add("C09", "byte_counter", "%s byte counter advanced by %lld for a call offering %zu (rc=%s)", dn, (long long) delta, len, ss_name(rc));
     if (delta != 0 && delta != (int64_t) len)
         hx_verdict_add("C09", "byte_counter", "%s byte counter advanced by %lld for a call offering %zu", dn, (long long) delta, len);
-    if (drv_sticky[dir]) {
+    if (drv_sticky[dir] && !drv_closed[dir]) {
         if (rc != drv_sticky[dir])
             hx_verdict_add("C09", "not_sticky", "%s direction reported %s earlier, later data call returned %s", dn, ss_name(drv_sticky[dir]), ss_name(rc));
         if (o->ncb != ncb0)
@@ -184,7 +185,7 @@ int hx_run(const hx_script *s, hx_obs *o) {
     lt_reset(&lt_run); hx_live_bytes = 0; hx_alloc_seq = 0;
     hx_nfault = s->nfault; hx_fault_k[0] = s->fault[0]; hx_fault_k[1] = s->fault[1]; hx_fault_fired = 0;
     vclk_sec = 1000000000L; vclk_usec = 0; vclk_calls = 0; vclk_jump_at = 0; vclk_jump_us = 0;
-    drv_susp[0] = drv_susp[1] = 0; drv_sticky[0] = drv_sticky[1] = 0; hb_reset(&drv_rem[0]); hb_reset(&drv_rem[1]);
+    drv_susp[0] = drv_susp[1] = 0; drv_sticky[0] = drv_sticky[1] = 0; drv_closed[0] = drv_closed[1] = 0; hb_reset(&drv_rem[0]); hb_reset(&drv_rem[1]);
     watchdog_arm();
 
     hx_in_lib = 1;
@@ -206,10 +207,12 @@ int hx_run(const hx_script *s, hx_obs *o) {
             case OP_CLOSE:
                 if (!s->raw) drv_drain(c);
                 hx_in_lib = 1; htp_connp_close(c, &drv_tv); hx_in_lib = 0;
+                drv_closed[0] = drv_closed[1] = 1;
                 monitor_limits(c);
                 break;
             case OP_QCLOSE:
                 hx_in_lib = 1; htp_connp_req_close(c, &drv_tv); hx_in_lib = 0;
+                drv_closed[0] = 1;
                 monitor_limits(c);
                 break;
             case OP_DESTROY: {
@@ -228,6 +231,7 @@ int hx_run(const hx_script *s, hx_obs *o) {
         if (hx_live_bytes > o->max_live_bytes) o->max_live_bytes = hx_live_bytes;
     }
     o->final_in_status = c->in_status; o->final_out_status = c->out_status;
+    o->final_susp[0] = drv_susp[0]; o->final_susp[1] = drv_susp[1];
     if (!s->light) hx_dump_conn(&o->dump, c, 0);
     if (s->want_canon) hx_canon(&o->canon, c);
     if (s->inspect) s->inspect(c, o, s->inspect_ctx);
